@@ -517,10 +517,16 @@ impl<C: ContentAddrStore> SealedState<C> {
         let my_epoch = self.0.height.epoch();
 
         let total_votes: u128 = self.0.stakes.total_votes(my_epoch);
+        // The tallies saturate instead of overflowing (a wrapped total would let a sliver of the
+        // stake confirm). A saturated total is not a number a two-thirds majority can be measured
+        // against, so nothing confirms such a state.
+        if total_votes == u128::MAX {
+            return None;
+        }
         let present_votes: u128 = cproof
             .keys()
             .map(|k| self.0.stakes.votes(my_epoch, *k))
-            .sum();
+            .fold(0u128, |a, b| a.saturating_add(b));
         // strictly more than two thirds of the voting power: 3 * present > 2 * total (in 256 bits,
         // since vote tallies are u128 sums)
         if ethnum::U256::from(present_votes) * 3 > ethnum::U256::from(total_votes) * 2 {
